@@ -1803,3 +1803,73 @@ async fn d44_pre_restore_transaction_commits_over_a_post_restore_write() {
 	assert!(r.is_err(), "D44: a transaction begun before the restore committed over a key written after it began (k = {now:?})");
 	assert_eq!(now.as_deref(), Some("new"));
 }
+
+// D45: a panic inside a background task (here: a table block size below 8, which Options::validate lets through, makes
+// the table writer panic in the flush task) leaves the task's `running` flag set for ever: TaskManager::stop() polls that
+// flag without a time limit, so close() never returns.
+#[tokio::test(flavor = "multi_thread")]
+async fn d45_close_hangs_after_a_background_task_panicked() {
+	let d = td();
+	let opts = mk_opts(d.path().to_path_buf(), |o| {
+		o.block_size = 4;
+		o.flush_on_close = false;
+	});
+	let tree = match Tree::new(Arc::clone(&opts)) {
+		Ok(t) => t,
+		Err(e) => {
+			println!("D45: the open refuses block_size = 4: {e}");
+			return;
+		}
+	};
+	for i in 0..20u8 {
+		put(&tree, &[b'k', i], b"value").await;
+	}
+	// hand the memtable to the background flush task
+	tree.core.inner.rotate_memtable().unwrap();
+	tree.core.task_manager.lock().unwrap().as_ref().unwrap().wake_up_memtable();
+	tokio::time::sleep(std::time::Duration::from_millis(500)).await;
+	let r = tokio::time::timeout(std::time::Duration::from_secs(5), tree.close()).await;
+	assert!(r.is_ok(), "D45: close() did not return within 5 s after the background flush task panicked");
+}
+
+// D46: table block sizes below the size of an empty block (8 bytes) make the table writer cut an EMPTY data block on the
+// first entry and panic while computing the index separator from an empty last key
+#[tokio::test(flavor = "multi_thread")]
+async fn d46_tiny_block_size_round_trip() {
+	for bs in [1usize, 2, 4, 7, 8, 9, 16] {
+		let d = td();
+		let opts = mk_opts(d.path().to_path_buf(), |o| o.block_size = bs);
+		let tree = Tree::new(Arc::clone(&opts)).unwrap();
+		let mut want = vec![];
+		for i in 0..40u8 {
+			let k = vec![b'k', b'0' + i / 10, b'0' + i % 10];
+			put(&tree, &k, &[b'v', i]).await;
+			want.push((k, vec![b'v', i]));
+		}
+		let r = std::panic::catch_unwind(std::panic::AssertUnwindSafe(|| tree.flush()));
+		assert!(matches!(r, Ok(Ok(()))), "D46: flush with block_size = {bs} fails: {:?}", r.map(|x| x.map_err(|e| e.to_string())).map_err(|_| "panic"));
+		let tx = tree.begin().unwrap();
+		for (k, v) in &want {
+			assert_eq!(tx.get(k).unwrap().as_deref(), Some(v.as_slice()), "D46: block_size = {bs}: point lookup");
+		}
+		let mut it = tx.range(&b"k"[..], &b"l"[..]).unwrap();
+		let mut got = vec![];
+		let mut ok = it.seek_first().unwrap();
+		while ok {
+			got.push((it.key().user_key().to_vec(), it.value().unwrap()));
+			ok = it.next().unwrap();
+		}
+		assert_eq!(got, want, "D46: block_size = {bs}: forward scan");
+		let mut back = vec![];
+		let mut ok = it.seek_last().unwrap();
+		while ok {
+			back.push((it.key().user_key().to_vec(), it.value().unwrap()));
+			ok = it.prev().unwrap();
+		}
+		back.reverse();
+		assert_eq!(back, want, "D46: block_size = {bs}: backward scan");
+		drop(it);
+		drop(tx);
+		tree.close().await.unwrap();
+	}
+}
